@@ -32,14 +32,32 @@ MI = {'logical': 0, 'raw': 1, 'rgb': 2}
 
 
 def script_for(m0, regs, chain):
+    """The switches are written plainly or, with the same meaning, through control flow: inside a taken `if`, a one-pass loop,
+    a routine, or after an untaken `if` that names another mode (what is in force is decided at run time, not by source order)."""
+    import random
+    pick = random.Random(repr((m0, regs, chain)))
+    defs = ''
     src = 'units %s\n' % m0
     src += ' '.join('%s %s' % (n, U.lit(v)) for n, v in zip(SETTINGS, regs)) + '\n'
     pr = ' '.join('print %s' % n for n in SETTINGS) + '\n'
     src += pr
-    for x in chain:
-        src += 'units %s\n' % x + pr
+    for k, x in enumerate(chain):
+        form = pick.choice(['plain', 'plain', 'if', 'loop', 'routine', 'decoy'])
+        if form == 'plain':
+            src += 'units %s\n' % x
+        elif form == 'if':
+            src += 'if {1} units %s\n' % x
+        elif form == 'loop':
+            src += 'repeat 1 begin units %s end\n' % x
+        elif form == 'routine':
+            defs += 'define sw_%d begin units %s end\n' % (k, x)
+            src += 'sw_%d\n' % k
+        else:
+            other = pick.choice([m for m in U.MODES if m != x])
+            src += 'if {0} units %s\nunits %s\n' % (other, x)
+        src += pr
     src += 'set "L1"\n'
-    return src
+    return defs + src
 
 
 class Obs:
